@@ -1860,7 +1860,13 @@ static void compile_expr(CG *cg, ASTNode *node) {
                     break;
                 }
                 int val = (ed->variant_values) ? ed->variant_values[vi] : vi;
-                emit_op(cg, OP_ENUM_VAL, ed->def_idx, val);
+                if (val < 0 || val > 0xFFFF) {
+                    /* OP_ENUM_VAL carries the value in a u16 operand; larger and negative explicit
+                     * values are pushed as the integers they denote */
+                    emit_op(cg, OP_PUSH_I64, (int64_t)val);
+                } else {
+                    emit_op(cg, OP_ENUM_VAL, ed->def_idx, val);
+                }
                 break;
             }
         }
